@@ -283,7 +283,7 @@ class _CovKernel(object):
         return k, dk
 
 
-def h_mol_covs(env, mode, nspin, deriv, ng=2, n0=2, nctrl=2):
+def h_mol_covs(env, mode, nspin, deriv, ng=2, n0=2, nctrl=2, norb=1):
     """_compute_mol_covs: cov_dict[mol] = sum_g w_g sum_s k_c(x_sg) m(x_sg) (SEP) / sum_g w_g k_c(x_g) m(x_g) (NPOL) and
     base_dict[mol] = sum_g w_g a(x_g), with the documented low-density mask (value and derivative alike); the orbital-derivative
     entries are the directional derivatives of the same quantities along the stored feature derivatives; reference data are stored"""
@@ -309,13 +309,19 @@ def h_mol_covs(env, mode, nspin, deriv, ng=2, n0=2, nctrl=2):
     etot, exc = env.par("e_tot_orig", lo="-8", hi="8"), env.par("exc_orig", lo="-8", hi="8")
     data = dict(wt=wt, desc=desc, val=val, e_tot_orig=etot, exc_orig=exc, nspin=nspin)
     orbs = {}
+    dvals = {}
     if deriv:
-        dd = env.arr("ddesc", (n0, ng), lo="-2", hi="2")
-        dval = env.par("dval", lo="-2", hi="2")
-        # stored format: {occ: {num: (spin, array)}} for spin-polarised data, {occ: {num: array}} otherwise
-        data["ddesc"] = {"O": {"0": ((nspin - 1, dd) if nspin == 2 else dd)}}
-        data["dval"] = {"O": {"0": dval}}
-        orbs[("O", 0)] = (nspin - 1 if nspin == 2 else 0, dd)
+        # stored format: {occ: {num: (spin, array)}} for spin-polarised data, {occ: {num: array}} otherwise; one or two orbital
+        # entries per system (HOMO "O" 0 and LUMO "U" 0), each with its own feature derivative and reference value
+        data["ddesc"], data["dval"] = {}, {}
+        for io, occ in enumerate(("O", "U")[:norb]):
+            dd = env.arr("ddesc%s" % ("" if io == 0 else occ), (n0, ng), lo="-2", hi="2")
+            dval = env.par("dval%s" % ("" if io == 0 else occ), lo="-2", hi="2")
+            sp = (nspin - 1 - io) % nspin if nspin == 2 else 0
+            data["ddesc"][occ] = {"0": ((sp, dd) if nspin == 2 else dd)}
+            data["dval"][occ] = {"0": dval}
+            orbs[(occ, 0)] = (sp, dd)
+            dvals[(occ, 0)] = dval
     gp.load_data = lambda ddir, mol_id, get_orb_deriv: dict(data)
     import contextlib
     import io
@@ -352,15 +358,16 @@ def h_mol_covs(env, mode, nspin, deriv, ng=2, n0=2, nctrl=2):
     env.equal("exx_reference", gp.exx_ref_dict["M"], sum((val[g] * wt[g] for g in range(ng)), env.const(0)))
     env.equal("ks_baseline", gp.ks_baseline_dict["M"], etot - exc)
     if deriv:
-        key = ("O", 0)
-        env.check("orbital_keys", set(kern.dcov_dict["M"].keys()) == {key} and set(kern.dbase_dict["M"].keys()) == {key}, str(list(kern.dcov_dict["M"].keys())))
-        s_o, dd = orbs[key]
-        wrts = [("desc", (s_o, i, g)) for i in range(n0) for g in range(ng)]
-        tang = [dd[i, g] for i in range(n0) for g in range(ng)]
-        for c in range(nctrl):
-            env.jvp("dcov_%d_is_directional_derivative" % c, cov[c], wrts, tang, kern.dcov_dict["M"][key][c])
-        env.jvp("dbaseline_is_directional_derivative", base, wrts, tang, kern.dbase_dict["M"][key])
-        env.equal("dexx_reference", gp.dexx_ref_dict["M"][key], dval)
+        env.check("orbital_keys", set(kern.dcov_dict["M"].keys()) == set(orbs) and set(kern.dbase_dict["M"].keys()) == set(orbs), str(list(kern.dcov_dict["M"].keys())))
+        for key in orbs:
+            tag = "" if key == ("O", 0) else "_%s%d" % key
+            s_o, dd = orbs[key]
+            wrts = [("desc", (s_o, i, g)) for i in range(n0) for g in range(ng)]
+            tang = [dd[i, g] for i in range(n0) for g in range(ng)]
+            for c in range(nctrl):
+                env.jvp("dcov_%d_is_directional_derivative%s" % (c, tag), cov[c], wrts, tang, kern.dcov_dict["M"][key][c])
+            env.jvp("dbaseline_is_directional_derivative%s" % tag, base, wrts, tang, kern.dbase_dict["M"][key])
+            env.equal("dexx_reference%s" % tag, gp.dexx_ref_dict["M"][key], dvals[key])
 
 
 def _fit(env, kernels_spec, names, nctrl, order=None):
@@ -494,6 +501,8 @@ def tasks(tier):
     out.append(Task("labels/xc_orbital_entry", h_xc_orbital_entry, {}, mods="train"))
     for mode, nspin, deriv in [("SEP", 1, False), ("SEP", 2, True), ("NPOL", 2, True), ("NPOL", 1, False)]:
         out.append(Task("mol_covs/%s/nspin%d/%s" % (mode, nspin, "orbital_derivs" if deriv else "plain"), h_mol_covs, dict(mode=mode, nspin=nspin, deriv=deriv), mods="train", max_paths=64))
+    for mode, nspin in [("SEP", 2), ("NPOL", 2)]:      # (the stand-in kernel has no consistent gradient convention for NPOL with nspin = 1)
+        out.append(Task("mol_covs/%s/nspin%d/two_orbital_entries" % (mode, nspin), h_mol_covs, dict(mode=mode, nspin=nspin, deriv=True, norb=2), mods="train", max_paths=64))
     out.append(Task("fit/x/2rxn", h_fit, dict(kernels_spec=("x",), names=("x_plain", "x_orb")), mods="train", timeout_ms=60000))
     out.append(Task("fit/x+c/2rxn/nctrl1", h_fit, dict(kernels_spec=("x", "c"), names=("x_plain", "xc_plain"), nctrl=1), mods="train", timeout_ms=60000))
     if tier == "thorough":
@@ -526,7 +535,7 @@ def prepare(tier):
 META = dict(
     explanation="MOLGP.add_reactions/reset_reactions/fit/compute_likelihood executed symbolically on duck-typed kernels with symbolic state; the oracle never inverts: "
                 "the solved weights are substituted into the documented linear equations and the polynomial normal form / z3 decide the identities",
-    functions=["ciderpress/models/dft_kernel.py: DFTKernel.set_control_points / get_kctrl (kmm/*: symmetry, documented spin combination, spin-exchange invariance)",
+    functions=['ciderpress/models/train.py: _compute_mol_covs with two orbital entries (mol_covs/*/two_orbital_entries)', "ciderpress/models/dft_kernel.py: DFTKernel.set_control_points / get_kctrl (kmm/*: symmetry, documented spin combination, spin-exchange invariance)",
                "ciderpress/models/train.py: MOLGP.__init__, reset_reactions, add_reactions, fit, compute_likelihood, _compute_mol_covs (load_data stubbed with symbolic arrays), strk_to_tuplek"],
     bounds=dict(control_points="1-2 per kernel", kernels="1-2 (x, c, xc components)", reactions="1-3 with 1-2 systems each, plain and orbital-derivative entries, modes 0 and 2",
                 options="noise / noise_factor / noise_rel_factor / weight / default unit", epsilon="numerical_epsilon symbolic >= 0 (the documented formula is the eps = 0 instance)"),
